@@ -13,6 +13,7 @@ import (
 // exprOpts controls canonical rendering of SSA expression trees.
 type exprOpts struct {
 	showConv bool // render integer conversions as uN(...)/iN(...)
+	sums     bool // render accumulation phis as Σ(init; term) and loop indices as *
 	depth    int
 }
 
@@ -121,6 +122,9 @@ func (r *renderer) render(v ssa.Value, d int) string {
 		}
 		return r.render(x.X, d)
 	case *ssa.BinOp:
+		if r.o.sums && loopVarying(x, 0) {
+			return "*"
+		}
 		a, b := r.render(x.X, d+1), r.render(x.Y, d+1)
 		op := x.Op
 		switch op {
@@ -144,7 +148,7 @@ func (r *renderer) render(v ssa.Value, d int) string {
 			case *ssa.FieldAddr:
 				return r.render(a.X, d+1) + "." + fieldName(a.X.Type(), a.Field)
 			case *ssa.IndexAddr:
-				return r.render(a.X, d+1) + "[" + r.render(a.Index, d+1) + "]"
+				return r.render(a.X, d+1) + "[" + r.idx(a.Index, d+1) + "]"
 			case *ssa.Alloc:
 				if sv := singleStore(a); sv != nil {
 					return r.render(sv, d+1)
@@ -161,9 +165,9 @@ func (r *renderer) render(v ssa.Value, d int) string {
 	case *ssa.Field:
 		return r.render(x.X, d+1) + "." + fieldName(x.X.Type(), x.Field)
 	case *ssa.IndexAddr:
-		return "&" + r.render(x.X, d+1) + "[" + r.render(x.Index, d+1) + "]"
+		return "&" + r.render(x.X, d+1) + "[" + r.idx(x.Index, d+1) + "]"
 	case *ssa.Index:
-		return r.render(x.X, d+1) + "[" + r.render(x.Index, d+1) + "]"
+		return r.render(x.X, d+1) + "[" + r.idx(x.Index, d+1) + "]"
 	case *ssa.Lookup:
 		return r.render(x.X, d+1) + "[" + r.render(x.Index, d+1) + "]"
 	case *ssa.Slice:
@@ -196,6 +200,17 @@ func (r *renderer) render(v ssa.Value, d int) string {
 		}
 		return name + "(" + strings.Join(args, ", ") + ")"
 	case *ssa.Phi:
+		if r.o.sums {
+			if init, term, ok := sumPhi(x); ok {
+				return "Σ(" + r.render(init, d+1) + "; " + r.render(term, d+1) + ")"
+			}
+			if init, elems, ok := appendPhi(x); ok {
+				return "⊕(" + r.render(init, d+1) + "; " + r.render(elems, d+1) + ")"
+			}
+			if isLoopIndex(x) {
+				return "*"
+			}
+		}
 		var es []string
 		seen := map[string]bool{}
 		for _, e := range x.Edges {
@@ -208,6 +223,18 @@ func (r *renderer) render(v ssa.Value, d int) string {
 		sort.Strings(es)
 		return "phi(" + strings.Join(es, " | ") + ")"
 	case *ssa.Alloc:
+		// a local cell holding one value (spilled by-value parameter, range
+		// variable, tuple component): render the value it holds
+		if sv := singleStore(x); sv != nil {
+			return r.render(sv, d+1)
+		}
+		if es := arrayLiteral(x); es != nil {
+			var parts []string
+			for _, e := range es {
+				parts = append(parts, r.render(e, d+1))
+			}
+			return "[" + strings.Join(parts, ", ") + "]"
+		}
 		return "alloc:" + relName(types.TypeString(derefType(x.Type()), nil))
 	case *ssa.TypeAssert:
 		return r.render(x.X, d+1) + ".(" + relName(types.TypeString(x.AssertedType, nil)) + ")"
@@ -255,6 +282,8 @@ func singleStore(a *ssa.Alloc) ssa.Value {
 			}
 		case *ssa.UnOp:
 		case *ssa.DebugRef:
+		case *ssa.Slice:
+			// slicing a local array cell (x[:]) — a read-only view for rendering purposes
 		case *ssa.FieldAddr:
 			// read-only field addresses are fine
 			for _, r2 := range *x.Referrers() {
@@ -289,4 +318,135 @@ func fieldStores(a *ssa.Alloc, fld *types.Var) []ssa.Value {
 		}
 	}
 	return out
+}
+
+// idx renders an index operand; with sums enabled any index that varies with
+// a loop counter is rendered as "*" ("every element").
+func (r *renderer) idx(v ssa.Value, d int) string {
+	if r.o.sums && loopVarying(v, 0) {
+		return "*"
+	}
+	return r.render(v, d)
+}
+
+func loopVarying(v ssa.Value, d int) bool {
+	if d > 4 {
+		return false
+	}
+	switch x := stripConv(v).(type) {
+	case *ssa.Phi:
+		return isLoopIndex(x)
+	case *ssa.BinOp:
+		_, cx := stripConv(x.X).(*ssa.Const)
+		_, cy := stripConv(x.Y).(*ssa.Const)
+		if cy {
+			return loopVarying(x.X, d+1)
+		}
+		if cx {
+			return loopVarying(x.Y, d+1)
+		}
+	case *ssa.Extract:
+		// key of a range-over-map/string Next
+		if _, ok := x.Tuple.(*ssa.Next); ok {
+			return true
+		}
+	}
+	return false
+}
+
+// isLoopIndex: phi(const, phi±const) — a counting loop variable.
+func isLoopIndex(p *ssa.Phi) bool {
+	if len(p.Edges) != 2 {
+		return false
+	}
+	for i := 0; i < 2; i++ {
+		if _, ok := stripConv(p.Edges[i]).(*ssa.Const); !ok {
+			continue
+		}
+		b, ok := stripConv(p.Edges[1-i]).(*ssa.BinOp)
+		if !ok || (b.Op != token.ADD && b.Op != token.SUB) {
+			continue
+		}
+		if stripConv(b.X) == ssa.Value(p) {
+			if _, ok := stripConv(b.Y).(*ssa.Const); ok {
+				return true
+			}
+		}
+	}
+	return false
+}
+
+// sumPhi: phi(init, phi + term) with term not a constant — an accumulation.
+func sumPhi(p *ssa.Phi) (init, term ssa.Value, ok bool) {
+	if len(p.Edges) != 2 {
+		return nil, nil, false
+	}
+	for i := 0; i < 2; i++ {
+		b, isB := stripConv(p.Edges[1-i]).(*ssa.BinOp)
+		if !isB || b.Op != token.ADD {
+			continue
+		}
+		var t ssa.Value
+		if stripConv(b.X) == ssa.Value(p) {
+			t = b.Y
+		} else if stripConv(b.Y) == ssa.Value(p) {
+			t = b.X
+		} else {
+			continue
+		}
+		if _, isC := stripConv(t).(*ssa.Const); isC {
+			continue
+		}
+		return p.Edges[i], t, true
+	}
+	return nil, nil, false
+}
+
+// structLiteralFields returns, for a struct value built in a local alloc
+// (composite literal or field-by-field assignment), the value stored into each
+// field, keyed by dotted field path; nested struct-valued fields are
+// flattened. Fields never stored are absent (zero value).
+func structLiteralFields(v ssa.Value) map[string]ssa.Value {
+	out := map[string]ssa.Value{}
+	a := localCell(v)
+	if a == nil {
+		return nil
+	}
+	var walk func(addr ssa.Value, prefix string)
+	walk = func(addr ssa.Value, prefix string) {
+		refs := addr.Referrers()
+		if refs == nil {
+			return
+		}
+		for _, ref := range *refs {
+			fa, ok := ref.(*ssa.FieldAddr)
+			if !ok || fa.X != addr {
+				continue
+			}
+			name := prefix + fieldName(fa.X.Type(), fa.Field)
+			stored := false
+			for _, r2 := range *fa.Referrers() {
+				if st, ok := r2.(*ssa.Store); ok && st.Addr == fa {
+					stored = true
+					if inner := localCell(st.Val); inner != nil && isStructType(derefType(inner.Type())) && len(structLiteralFields(st.Val)) > 0 {
+						for k, vv := range structLiteralFields(st.Val) {
+							out[name+"."+k] = vv
+						}
+					} else {
+						out[name] = st.Val
+					}
+				}
+			}
+			if !stored {
+				walk(fa, name+".")
+			}
+		}
+	}
+	walk(a, "")
+	return out
+}
+
+func isStructType(t types.Type) bool {
+	_, ok := t.Underlying().(*types.Struct)
+	return ok
 }
